@@ -14,9 +14,11 @@ PID = "C19"
 import time
 T0 = time.time()
 TRIVIA = [b" ", b"\n", b"\t", b"  \n\t ", b"\r\n", b" /* c */ ", b" /* multi\n line \" ' // */ ", b" // c\n", b" /**/ ", b"\n// x \"q\" 'z' /* \n", b"\n\n\n", b" /* * / ** */\t",
-          b" /* a\tb */ ", b"/*\t*/", b" /* x\n\ty\t*/ ", b" // t\tu\n", b"\t/* \t */\t"]
+          b" /* a\tb */ ", b" /*\t*/", b" /* x\n\ty\t*/ ", b" // t\tu\n", b"\t/* \t */\t"]
+# every inserted piece is SEPARATOR trivia in the sense of Props/C19 `SepTrivia`: it begins with a white-space byte (a comment glued to a
+# preceding `/` would form `//`)
 # trivia with non-ASCII text (outside the Lean model's domain; positions are checked against the column rule re-stated in Python)
-TRIVIA_U = [" /* caf\u00e9 \u2192 */ ".encode(), " /* \u65e5\u672c\n \u00e9 */ ".encode(), " // \u00fc\u00f1\n".encode(), "/*\u00e9\t\u00e9*/".encode()]
+TRIVIA_U = [" /* caf\u00e9 \u2192 */ ".encode(), " /* \u65e5\u672c\n \u00e9 */ ".encode(), " // \u00fc\u00f1\n".encode(), " /*\u00e9\t\u00e9*/".encode()]
 
 
 def advance_spec(pos, chunk):
@@ -138,6 +140,17 @@ def main():
                  {"kind": "broken-obligation", "correspondence": "tokenizer.go pattern list vs Model/Lexer.lean scanners", "detail": pr}, no_input=True)
     rng = SplitMix64(seed() * 104729 + 19)
     seeds = [(n, s) for n, s in fuzzgen.seed_programs() if all(c < 128 for c in s)]
+    # token-adjacency programs: an operand directly followed by a sign written against digits, doubled signs, ranges, member access on
+    # numbers ... — the places where a lexer decides by what stands next to (or before) a token; accepted or rejected, each is a base
+    ADJ_PRE = 'import "std/io";\nfn two(a: i32, b: i32) -> i32 { return a + b; }\n'
+    ADJ = ["let a: i32 = width -1;", "let a: i32 = width-1;", "let a: i32 = width - 1;", "let a: i32 = q[0] -1;", "let a: i32 = two(1, 2) -2;", "let a: i32 = (width) -1;", "let a: i32 = width - -1;",
+           "let a: i32 = width- -1;", "let a: i32 = width -0x10;", "let h: f64 = 1.5 -2.5;", "let a: i32 = -1 -1;", "let a: i32 = width +1;", "let a: i32 = width*-1;", "let a: i32 = width/-1;",
+           "let a: i32 = 0; for i in 0..3 { a = a + i; }", "let a: i32 = 0; for i in 0 .. 3 { a = a + i; }", "let a: i32 = width--1;", "let a: i32 = width<-1 ;", "let b: bool = width<-1;", "let b: bool = width>-1;",
+           "let a: i32 = width; a -= 1;", "let a: i32 = width; a-=1;", "let a: i32 = width; a = a -1;", "let a: i32 = two(width -1, 2);", "let a: i32 = two(width, -1);", "let a: i32 = q[1 -1];", "let a: i32 = q[-1];"]
+    for k, st in enumerate(ADJ):
+        body = "fn main() {\n    let width: i32 = 10;\n    let q: [2]i32 = [3, 4];\n    %s\n    io::Println(width);\n}\n" % st
+        seeds.append(("adj:%d" % k, (ADJ_PRE + body).encode()))
+    seeds.append(("adj:ret", (ADJ_PRE + "fn f(n: i32) -> i32 {\n    return n -1;\n}\nfn main() {\n    io::Println(f(3));\n}\n").encode()))
 
     # ---- (a) real lexer and model: significant tokens invariant under insertion before tokens
     bases = [s for _, s in seeds]
@@ -152,6 +165,9 @@ def main():
         # `/` immediately followed by `*`: unterminated comment opener (see Props/C19 cleanRun)
         if any(k == "/" and i + 1 < len(toks) and toks[i + 1][0] == "*" and toks[i + 1][2][2] == b_[2] for i, (k, v, a, b_) in enumerate(toks)): continue
         nsig = len(sig(toks))
+        if not b.endswith(b"\n"):
+            nsig -= 1              # the end-of-file token: text put there would continue a line comment that the file's end terminates
+        if nsig <= 0: continue     # nothing but trivia: there is no gap between two tokens
         for pl in plans(rng, nsig, 6 if tier == "quick" else 20):
             texts.append(insert(b, toks, pl)); metas.append((b, toks, pl))
         for _ in range(2 if tier == "quick" else 6):           # non-ASCII trivia: real lexer only
@@ -209,7 +225,7 @@ def main():
             if k in seen_sigs: continue                 # one base per distinct diagnostic set
             seen_sigs.add(k)
             rejected.append((n, m, r))
-    rejected = rejected[: (40 if tier == "quick" else 300)]
+    rejected = rejected[: (70 if tier == "quick" else 300)]
     acc_n = 5 if tier == "quick" else 20
     jobs, jm = [], []
     for n, s, r in accepted:
